@@ -135,15 +135,15 @@ class MediaList(cssutils.util._NewListBase):
                 if item.type == 'MediaQuery':
                     mediaType = item.value.mediaType
                     if mediaType:
-                        if mediaType == 'all':
+                        if normalize(mediaType) == 'all':
                             # remove anthing else and keep all+comments(!) only
                             finalseq = commentseqonly
                             finalseq.append(item)
                             break
-                        elif mediaType in mediaTypes:
+                        elif normalize(mediaType) in mediaTypes:
                             continue
                         else:
-                            mediaTypes.append(mediaType)
+                            mediaTypes.append(normalize(mediaType))
                 elif isinstance(item.value, cssutils.css.csscomment.CSSComment):
                     commentseqonly.append(item)
 
